@@ -355,6 +355,8 @@ def gen_generic_case(ctx, G, cls: str | None = None, fits: bool = True, entry: s
     if nd is None:
         nd = r.random() < 0.25
     cfg.nd = nd
+    if r.random() < 0.3:
+        cfg.ver = r.choice([1, 2])
     ns = g.namespaces(r.randint(0, 3)) if nd else []
     if nd and ns:
         # namespace IRIs use the tables as well
